@@ -17,6 +17,7 @@ import (
 	"fmt"
 	"os"
 	"path/filepath"
+	"strings"
 	"time"
 
 	"github.com/dapr/kit/logger"
@@ -75,6 +76,19 @@ func (d *Dir) Write(files map[string][]byte) error {
 			return err
 		}
 		d.log.Infof("Written file %s", file)
+	}
+
+	if d.prev == nil {
+		// First write of this Dir: if the target already points to a version written by an earlier Dir (a previous
+		// run of the process), that version is the one to remove once the new one is live
+		if cur, err := os.Readlink(d.target); err == nil {
+			if !filepath.IsAbs(cur) {
+				cur = filepath.Join(d.base, cur)
+			}
+			if filepath.Dir(cur) == d.base && cur != newDir && strings.HasSuffix(filepath.Base(cur), "-"+d.targetDir) {
+				d.prev = &cur
+			}
+		}
 	}
 
 	// A previous write that was interrupted between the symlink and the rename leaves a stale ".new" symlink
